@@ -7,7 +7,7 @@ use blots_core::environment::Environment;
 use blots_core::expressions::{
     evaluate_pairs, pairs_to_expr_with_comments, validate_portable_value,
 };
-use blots_core::formatter::format_expr;
+use blots_core::formatter::{format_expr, protect_leading_minus};
 use blots_core::functions::{clear_function_call_stats, get_function_call_stats};
 use blots_core::heap::Heap;
 use blots_core::parser::{Rule, get_pairs};
@@ -261,7 +261,10 @@ fn run() -> ! {
                             Rule::expression => {
                                 match pairs_to_expr_with_comments(inner_pair.into_inner()) {
                                     Ok(expr) => {
-                                        let formatted = format_expr(&expr, None);
+                                        let formatted = protect_leading_minus(
+                                            format_expr(&expr, None),
+                                            formatted_output.is_empty(),
+                                        );
                                         formatted_output.push_str(&formatted);
                                         formatted_output.push_str(&eol_comment);
                                         formatted_output.push('\n');
